@@ -95,6 +95,11 @@ class Curve(BSpline.Curve):
         self._cache['ctrlpts'] = self._init_array()
         self._cache['weights'] = self._init_array()
 
+    def reverse(self):
+        """ Reverses the curve """
+        super(Curve, self).reverse()
+        self.init_cache()
+
     @property
     def ctrlptsw(self):
         """ Weighted control points (Pw).
